@@ -113,7 +113,7 @@ where
         let budget: f64 = ctx.tier.pick(700.0, 40000.0);
         let n_points = {
             let mut chain = chain_with_eps::<T, B>(target.clone(), &b.start, b.eps);
-            let (_, rec) = record_with(Script { prefix: vec![], momenta: moms.clone(), f32_scalar: f32b, inject: true }, || chain.step());
+            let (_, rec) = record_with(Script { prefix: vec![], momenta: moms.clone(), f32_scalar: f32b, inject: true, keep: None, max_leaves: 1 << 14 }, || chain.step());
             rec.decisions.iter().map(|d| (d.n - 1) as f64).sum::<f64>()
         };
         let mut bound = b.bound;
@@ -130,7 +130,7 @@ where
         }
         let res = explore(bound, ctx.tier.pick(4000, 200000), |prefix| {
             let mut chain = chain_with_eps::<T, B>(target.clone(), &b.start, b.eps);
-            let (r, rec) = record_with(Script { prefix: prefix.to_vec(), momenta: moms.clone(), f32_scalar: f32b, inject: true }, || chain.step());
+            let (r, rec) = record_with(Script { prefix: prefix.to_vec(), momenta: moms.clone(), f32_scalar: f32b, inject: true, keep: None, max_leaves: 1 << 14 }, || chain.step());
             let case = json!({"backend": name, "target": tname, "start": b.start, "eps": b.eps, "script": prefix});
             ctx.transitions(1);
             if let Err(m) = r {
@@ -241,7 +241,7 @@ pub fn check_case(ctx: &Ctx, case: &Value) {
             if let Some((target, d, _)) = tg.iter().find(|t| t.2 == tname) {
                 let rt = gt_ref(target);
                 let mut chain = chain_with_eps::<$T, $B>(target.clone(), &start, eps);
-                let (r, rec) = record_with(Script { prefix: prefix.clone(), momenta: momenta(*d), f32_scalar: f32b, inject: true }, || chain.step());
+                let (r, rec) = record_with(Script { prefix: prefix.clone(), momenta: momenta(*d), f32_scalar: f32b, inject: true, keep: None, max_leaves: 1 << 14 }, || chain.step());
                 if let Err(m) = r {
                     ctx.violation(Violation::new("C03:panic", m, case.clone()));
                 } else {
